@@ -346,7 +346,40 @@ func genC01base(t *rapid.T) C01Case {
 }
 
 // genC01 adds receiver/operand aliasing to a base case now and then.
+// genC01Huge: operands and precisions an order of magnitude beyond the ordinary classes (tens of thousands of
+// digits to a hundred thousand): any size-gated code path has its threshold somewhere; a few cases per run.
+func genC01Huge(t *rapid.T) C01Case {
+	c := C01Case{M: h.GenMode(t, "zmode")}
+	c.Op = rapid.SampledFrom([]string{"add", "sub", "mul", "quo", "quo", "set"}).Draw(t, "hop")
+	size := func(l string) int {
+		return rapid.SampledFrom([]int{32768 * 19 / 19, 40000, 65536, 77824, 100000, 131072}).Draw(t, l) + rapid.IntRange(-40, 40).Draw(t, l+"off")
+	}
+	mk := func(l string, n int) h.Spec {
+		d := h.GenDigitsN(t, l, n)
+		return h.Spec{F: "f", D: d, E: int64(rapid.IntRange(-60, 60).Draw(t, l+"e")) + int64(n)/2, Neg: rapid.Bool().Draw(t, l+"neg"), P: uint(len(d)), M: h.GenMode(t, l+"m")}
+	}
+	switch c.Op {
+	case "quo":
+		// long quotient of short or long operands
+		c.X = mk("hx", rapid.SampledFrom([]int{1, 5, 40, 3000, 40000}).Draw(t, "hxn"))
+		c.Y = mk("hy", rapid.SampledFrom([]int{1, 3, 19, 40, 2000, 20000}).Draw(t, "hyn"))
+		c.P = uint(size("hp"))
+	case "set":
+		c.X = mk("hx", size("hxn"))
+		c.P = uint(rapid.IntRange(1, len(c.X.D)).Draw(t, "hp"))
+	default:
+		c.X = mk("hx", size("hxn"))
+		c.Y = mk("hy", rapid.SampledFrom([]int{1, 40, 3000, 40000, 100000}).Draw(t, "hyn"))
+		c.Y.E = c.X.E + int64(rapid.IntRange(-200, 200).Draw(t, "hye"))
+		c.P = uint(rapid.IntRange(1, len(c.X.D)+len(c.Y.D)).Draw(t, "hp"))
+	}
+	return c
+}
+
 func genC01(t *rapid.T) C01Case {
+	if h.Rare(t, "huge", 4000) {
+		return genC01Huge(t)
+	}
 	c := genC01base(t)
 	if rapid.IntRange(0, 5).Draw(t, "aliased") != 0 {
 		return c
@@ -501,7 +534,7 @@ func checkC01(c C01Case, o *h.Obs) *h.Fail {
 	return nil
 }
 
-const ruleC01 = "rapid-generated (op, operands, receiver precision, mode) for add/sub/mul/quo/set/setprec/neg/abs: operands from word-patterned digit generators (0, 10^19-1, 5*10^18, 10^k, 10^k-1 words, uniform filler), result-directed constructions (chosen exact sum split into addends; x=q*y(+r) with q carrying a tie / all-nines / just-above / just-below pattern at the precision), near-total cancellation, exponents at both ends of the int32 range, zero addends, an addend 4096 .. 140000 digits below the other (a few per run: 2^20 .. 2^27 digits below), dividends of 19500-24000 digits against short divisors, receivers aliased to an operand; oracle = math/big exact result rounded once by the reference Round (range rule included), compared on sign, digits, exponent read back through BitsExp; operands that are not the receiver must be unchanged. Non-trivial = the model result is inexact or left the finite range (rounding, overflow, underflow happened); distinct = distinct case encodings. Bounds: exponent gap of sums <= 600 (quick) / 6000 (thorough) digits, Quo precision <= 2000 / 40000, operands <= 2500 / 20000 digits."
+const ruleC01 = "rapid-generated (op, operands, receiver precision, mode) for add/sub/mul/quo/set/setprec/neg/abs: operands from word-patterned digit generators (0, 10^19-1, 5*10^18, 10^k, 10^k-1 words, uniform filler), result-directed constructions (chosen exact sum split into addends; x=q*y(+r) with q carrying a tie / all-nines / just-above / just-below pattern at the precision), near-total cancellation, exponents at both ends of the int32 range, zero addends, an addend 4096 .. 140000 digits below the other (a few per run: 2^20 .. 2^27 digits below), dividends of 19500-24000 digits against short divisors, receivers aliased to an operand, about one case in 4000 with operands or precisions of 32768..131072 digits; oracle = math/big exact result rounded once by the reference Round (range rule included), compared on sign, digits, exponent read back through BitsExp; operands that are not the receiver must be unchanged. Non-trivial = the model result is inexact or left the finite range (rounding, overflow, underflow happened); distinct = distinct case encodings. Bounds: exponent gap of sums <= 600 (quick) / 6000 (thorough) digits, Quo precision <= 2000 / 40000, operands <= 2500 / 20000 digits."
 
 var propC01 = &h.Prop[C01Case]{ID: "C01", Rule: ruleC01, Gen: genC01, Check: checkC01, Matchers: map[string]func(C01Case) bool{}}
 
